@@ -42,6 +42,8 @@ pub mod vx_dc {
 /*@include units/dec_comp/sv.rs @*/
 
 /*@include units/dec_comp/aw.rs @*/
+
+/*@include units/dec_comp/any.rs @*/
 }
 
 } // verus!
